@@ -796,15 +796,16 @@ func (p *Parser) parseOutputExpr() (*outputExpr, bool, error) {
 		p.skipBlanks()
 		if p.skipString("AS") {
 			p.skipBlanks()
+			parenLine := p.lineNum
 			parenCol := p.colNum()
 			if targetTypes, parenTypes, ok, err := p.parseTargetTypes(); err != nil {
 				return nil, false, err
 			} else if ok {
 				if parenCols && !parenTypes {
-					return nil, false, errorAt(fmt.Errorf(`missing parentheses around types after "AS"`), p.lineNum, parenCol, p.input)
+					return nil, false, errorAt(fmt.Errorf(`missing parentheses around types after "AS"`), parenLine, parenCol, p.input)
 				}
 				if !parenCols && parenTypes {
-					return nil, false, errorAt(fmt.Errorf(`unexpected parentheses around types after "AS"`), p.lineNum, parenCol, p.input)
+					return nil, false, errorAt(fmt.Errorf(`unexpected parentheses around types after "AS"`), parenLine, parenCol, p.input)
 				}
 				if starCountTypes(targetTypes) > 0 {
 					for _, c := range cols {
